@@ -130,6 +130,55 @@ theorem C06_write_error_keeps_queue (s : S) (c : Nat) (q : List WEnt) (hq : s.se
     onWrite s = fire { s with wq := q } s.wecb (.writeError c) := by
   simp [onWrite, hq, ha]
 
+/-- **C06_write_error_reported.** A failing `write` of the write-ready callback is reported to the
+write-error callback exactly once, with the errno the kernel gave — for EVERY errno (EINTR, EPIPE,
+ECONNRESET, ETIMEDOUT, EHOSTUNREACH, …: the code makes no distinction at this site) — and with a
+callback that does nothing, or with none set (the failure is only logged), nothing else moves: state,
+queue, wire, write event, ghosts. -/
+theorem C06_write_error_reported (s : S) (c : Nat) (q : List WEnt) (hq : s.sendQ ≠ [])
+    (ha : popW s .cb s.sendQ.length = (.err c, q)) :
+    (s.wecb = some [] → onWrite s = { s with wq := q, hist := s.hist ++ [.writeError c] }) ∧
+    (s.wecb = none → onWrite s = { s with wq := q }) := by
+  constructor <;> intro h <;> simp [onWrite, hq, ha, fire, h, runActs]
+
+/-- the answers the next `k` writes of the write-ready callback get, one errno each -/
+def cbErrs (cs : List Nat) : List WEnt := cs.map fun c => ⟨some .cb, .err c⟩
+
+/-- **C06_write_error_each_pass.** A run of failing writable passes — any errnos `cs`, in any order,
+any number of them — is reported pass by pass, in order, each errno once; the queue and the wire are
+the same afterwards, the write event is still armed and the answers addressed to the `write` of
+`send()` (`rest` may hold them) are untouched: the next writable pass the kernel lets through sends
+the queue (`C06_send_drains`). -/
+theorem C06_write_error_each_pass (cs : List Nat) (s : S) (rest : List WEnt)
+    (hq : s.sendQ ≠ []) (ha : s.writeArmed = true) (hc : s.wecb = some [])
+    (hw : s.wq = cbErrs cs ++ rest) :
+    let s' := (cs.map fun _ => Op.wr).foldl (fun s o => (step s o).1) s
+    s' = { s with wq := rest, hist := s.hist ++ cs.map .writeError } := by
+  induction cs generalizing s with
+  | nil => simp [cbErrs] at hw ⊢; cases s; simp_all
+  | cons c cs ih =>
+      have hp : popW s .cb s.sendQ.length = (.err c, cbErrs cs ++ rest) := by
+        simp [popW, hw, cbErrs, popAt]
+      have h1 := (C06_write_error_reported s c _ hq hp).1 hc
+      simp only [List.map_cons, List.foldl_cons]
+      have hs : (step s .wr).1 = { s with wq := cbErrs cs ++ rest, hist := s.hist ++ [.writeError c] } := by
+        simp [step, ha, h1]
+      rw [hs, ih _ (by simpa using hq) (by simpa using ha) (by simpa using hc) rfl]
+      simp
+
+/-- non-vacuity: three bytes queued behind a one-byte accept; EPIPE, ECONNRESET, ETIMEDOUT and EINTR
+at the callback site are reported in that order, two bytes stay queued and armed; the pass after
+them writes the rest and the one after that reports send-complete -/
+example :
+    let s := run init [.init 3, .setScb (some []), .setWecb (some []), .enable,
+                       .kw (⟨some .send, .accept 1⟩ :: cbErrs [32, 104, 110, 4]), .send [1, 2, 3]]
+    let t := run s [.wr, .wr, .wr, .wr]
+    let u := run t [.wr, .wr]
+    s.sendQ = [2, 3] ∧ s.writeArmed = true ∧ s.wq = cbErrs [32, 104, 110, 4] ++ [] ∧
+    t.hist = [.writeError 32, .writeError 104, .writeError 110, .writeError 4] ∧ t.sendQ = [2, 3] ∧ t.wire = [1] ∧
+    t.writeArmed = true ∧ u.wire = [1, 2, 3] ∧ u.hist = t.hist ++ [.sendComplete 0] := by
+  decide
+
 /-- **C06_send_progress_counterexample_disarm** (the seeded variant C06-5, not the code: the error
 branch of `onWriteCallback` switches the write event off).  One EINTR at the callback site and the
 descriptor is running with two bytes queued and nobody to write them. -/
